@@ -49,10 +49,13 @@ Section Desc.
                 it: Attr.lookup_default_value(type(obj)) — the default, the
                 result of the default factory, or the overriding class
                 attribute of a (spec or plain) subclass; None = MISSING
-     a_masked   Some flags when the class attribute of that name is a
-                spec_property (Attr.is_masked): the annotation makes it a
-                managed attribute, the descriptor stays in the class
-     a_inv      Attr.invalidated_by (copied from the property when masked) *)
+     a_masked   Some flags when type(obj).<name> is a spec_property: the
+                annotation (here or in a parent spec class) makes it a managed
+                attribute, the descriptor stays in the class (Attr.is_masked;
+                also: a plain subclass masking the inherited attribute)
+     a_inv      Attr.invalidated_by as build_attr_spec leaves it in
+                metadata.attrs: the Attr's own, or the property's when a spec
+                class assigns a spec_property to the (possibly inherited) name *)
   Record aspec := mka { a_default : option V; a_masked : option pflags; a_inv : list dep }.
 
   (* a member of a class __dict__ that is not a managed attribute:
@@ -88,10 +91,28 @@ Section Desc.
     | None => None
     end.
 
-  (* the declaration `invalidated_by=[…]` that is in force for n *)
+  (* members of the classes that precede the metadata's owner in the MRO (plain
+     subclasses) *)
+  Definition plain_members (cd : cdesc) : list (name * member) :=
+    flat_map l_members (filter l_plain (c_levels cd)).
+  (* _build_invalidation_map: the dependencies used for a managed attribute —
+     those of the first plain-subclass member of that name if it declares any
+     (`__spec_class_invalidated_by__`, i.e. a spec_property), else Attr.invalidated_by *)
+  Definition builder_inv (cd : cdesc) (n : name) (a : aspec) : list dep :=
+    match assoc (plain_members cd) n with
+    | Some m => match m_prop m with Some _ => m_inv m | None => a_inv a end
+    | None => a_inv a
+    end.
+
+  (* the declaration `invalidated_by=[…]` that is in force for n: when the
+     definition of n in force for type(obj) (first along the MRO) is a
+     spec_property, the property's own; else the Attr's (managed attribute) *)
   Definition decl_inv (cd : cdesc) (n : name) : option (list dep) :=
     match attr_of cd n with
-    | Some a => Some (a_inv a)
+    | Some a => Some (match member_of cd n with
+                      | Some m => match m_prop m with Some _ => m_inv m | None => a_inv a end
+                      | None => a_inv a
+                      end)
     | None => option_map m_inv (member_of cd n)
     end.
 End Desc.
@@ -114,3 +135,5 @@ Arguments member_of {V} cd n.
 Arguments descriptor_of {V} cd n.
 Arguments default_of {V} cd n.
 Arguments decl_inv {V} cd n.
+Arguments plain_members {V} cd.
+Arguments builder_inv {V} cd n a.
